@@ -7,6 +7,7 @@ from .. import paths
 from ..core import FUNC, call_attr, calls_in, const, dotted, is_const, kwarg, norm, slice_parts, text, walk_local
 
 EXPLANATION = [
+    "C14.builtin-standalone: bumble.crypto.builtin imports nothing from the bumble.crypto package (it is imported from the package's own ImportError fallback).",
     'C14.unsigned-reads: every integer conversion of the SMP toolbox in bumble/crypto/__init__.py (int.from_bytes / to_bytes, struct formats) is unsigned.',
     'C14.coordinates-mod-p: no arithmetic expression of the built-in elliptic-curve code combines the group order n with a point coordinate (coordinates are mod p).',
     'C14.jacobian-z: every _JacobianPoint(...) construction passes z explicitly (the default z=0 is the point at infinity) and the generator is built with z=1.',
@@ -689,7 +690,23 @@ def unsigned_reads(ctx):
     R.check(fn is not None and n >= 1, rule, 'bumble.crypto | integer conversions', f'{n} conversions, all unsigned', f'only {n} conversions found / g2 missing')
 
 
+def builtin_standalone(ctx):
+    """bumble/crypto/__init__.py imports the built-in back end while it is itself still being initialised (the fallback
+    when `cryptography` is missing): builtin.py must not import anything from the bumble.crypto package."""
+    R, p = ctx.r, ctx.p
+    rule = 'C14.builtin-standalone'
+    m = p.modules.get(B)
+    pkg = p.modules.get('bumble.crypto')
+    if m is None or pkg is None:
+        R.bad(rule, B, 'anchor missing')
+        return
+    bad = [i for i in ast.walk(m.tree) if (isinstance(i, ast.ImportFrom) and ((i.module or '') == 'bumble.crypto' or (i.level > 0 and (i.module or '') in ('', 'cryptography')) or ((i.module or '') == 'bumble' and any(a.name == 'crypto' for a in i.names)))) or (isinstance(i, ast.Import) and any(a.name == 'bumble.crypto' for a in i.names))]
+    fallback = any(isinstance(i, ast.ImportFrom) and (i.module or '').endswith('builtin') for t in ast.walk(pkg.tree) if isinstance(t, ast.Try) for h in t.handlers for i in ast.walk(h))
+    R.check(fallback and not bad, rule, B, 'imports nothing from bumble.crypto', f'`{norm(bad[0]) if bad else ""}`: when `cryptography` is not installed, bumble.crypto imports this module before it has defined its own names - the import is circular and fails, no back end at all is available', f'{m.rel}:{bad[0].lineno}' if bad else '')
+
+
 RULES = [
+    ('C14.builtin-standalone', builtin_standalone),
     ('C14.unsigned-reads', unsigned_reads),
     ('C14.coordinates-mod-p', coordinates_mod_p),
     ('C14.jacobian-z', jacobian_z),
